@@ -7,7 +7,7 @@ HERE = os.path.dirname(os.path.abspath(__file__))
 WT = os.environ.get("ERASE_WT", "/tmp/wt_erase")
 lanes = int(sys.argv[1]) if len(sys.argv) > 1 else 2
 flt = sys.argv[2] if len(sys.argv) > 2 else ""
-muts = [m for m in json.load(open(os.path.join(HERE, "selftest.json"))) if flt in m["name"]]
+muts = [m for m in json.load(open(os.path.join(HERE, "selftest.json"))) if any(f in m["name"] for f in flt.split(","))]
 res = {}
 lock = threading.Lock()
 queue = list(muts)
